@@ -25,7 +25,8 @@ struct in_p6 {
 static struct in_p6 G;
 static char TOK[16][TOKLEN + 1];
 static char TOK0[16][TOKLEN + 1];
-static int S_badlang, S_calls;
+static int S_badlang, S_calls, S_badcmp;
+cmp_fn* __CPROVER_file_local_lang_c_get_comparer(const polyseed_lang* lang);
 
 static bool in_tokens(const char* p, const char (*base)[TOKLEN + 1]) {
 #ifndef REPLAY
@@ -41,9 +42,10 @@ static long tok_index(const char* p, const char (*base)[TOKLEN + 1]) {
 }
 
 int __CPROVER_file_local_lang_c_lang_search(const polyseed_lang* lang, const char* word, cmp_fn* cmp) {
-    (void)cmp;
     S_calls++;
     DEP_TICK();
+    /* every language is searched with the comparator its own flags select */
+    if (cmp != __CPROVER_file_local_lang_c_get_comparer(lang)) S_badcmp++;
     int li = -1;
     for (int i = 0; i < NL; ++i) if (lang == polyseed_get_lang(i)) li = i;
     if (in_tokens(word, TOK0)) {                     /* token of the earlier phrase */
@@ -115,6 +117,7 @@ void p6_auto(void) {
         VASSERT(st == POLYSEED_ERR_MULT_LANG, "P6 two or more languages recognise all tokens: multiple-languages status");
     }
     VASSERT(S_badlang == 0, "P6 lookup only with registered languages and phrase tokens");
+    VASSERT(S_badcmp == 0, "P6 each language is searched with the comparator selected by its own prefix/accent flags");
 
     /* explicit decoding with language e */
     uint_fast16_t idx2[16];
